@@ -407,3 +407,71 @@ def r34_3(ctx, m):
         fi = m.func(EJ, "estimate_evidence_lower_bound")
         ctx.check("R34.3", f"{EC} <-> {EJ}::sample and posterior-contribution formulas agree", a[0] == b[0] and a[1] is not None and
                   sorted(a[1].replace("tr_log_lat_cov", "T").split(" + ")) == sorted(b[1].replace("tr_log_lat_cov", "T").split(" + ")), f"{a} vs {b}", fi)
+
+
+# ---------------------------------------------------------------------------------------------------------------- R34.4
+def r34_4(ctx, m):
+    ctx.rule("R34.4", "sibling sites of the eigen-decomposition agree: in each `_eigsh` all dense `eigh` calls of the exact branch request "
+                      "the same index range (the largest relevant eigenvalues), every projected operator is built from the same (shifted) "
+                      "solver operator; in the JAX ELBO the exact inverse-eigenvalue sum and the stochastic remainder use the same shift", floor=4)
+    for modname in (EC, EJ):
+        fi = m.func(modname, "_eigsh")
+        ctx.saw_func(fi)
+        calls = [c for c in ast.walk(fi.node) if isinstance(c, ast.Call) and _n(c.func).endswith("eigh") and c.args and "_explicify" in _n(c.args[0])]
+        key = f"{fi.key}::dense eigh calls request the largest relevant eigenvalues, identically"
+        if len(calls) < 2:
+            ctx.und("R34.4", key, f"{len(calls)} dense eigh calls", fi)
+        else:
+            subs = [next((_n(k.value) for k in c.keywords if k.arg == "subset_by_index"), None) for c in calls]
+            args0 = {_n(c.args[0]) for c in calls}
+            good = len(set(subs)) == 1 and subs[0] is not None and len(args0) == 1
+            if good:
+                # [size - n, size - 1]: the top n
+                good = subs[0].startswith("[") and subs[0].endswith("-1]") and subs[0].count(",") == 1
+                lo, hi = subs[0][1:-1].split(",")
+                good = good and hi.endswith("-1") and lo.startswith(hi[:-2] + "-")
+            ctx.check("R34.4", key, good, f"subset_by_index: {subs}", fi, calls[0])
+        proj = [c for c in ast.walk(fi.node) if isinstance(c, ast.Call) and call_name(c) == "_ProjectedMetric" and c.args]
+        if proj:
+            bases = [_n(c.args[0]) for c in proj]
+            # the operator handed to the solver when nothing is projected
+            plain = [st for st in walk_no_nested(fi.node) if isinstance(st, ast.Assign) and any(_n(t) == "projected_metric" for t in st.targets)
+                     and isinstance(st.value, ast.Name)]
+            want = _n(plain[0].value) if plain else bases[0]
+            ctx.check("R34.4", f"{fi.key}::every projected operator wraps the solver operator `{want}`", all(b == want for b in bases),
+                      f"_ProjectedMetric bases {bases}" + ("" if all(b == want for b in bases) else ": the first batch after a resume would see unshifted eigenvalues"), fi, proj[0])
+    est = m.func(EJ, "estimate_evidence_lower_bound")
+    ctx.saw_func(est)
+    # shift of the exact inverse sum vs shift of the SLQ `inv` function
+    inv_exact = [st for st in ast.walk(est.node) if isinstance(st, ast.Assign) and isinstance(st.value, ast.BinOp) and isinstance(st.value.op, ast.Div)
+                 and "eigenvalues" in _n(st.value.right) and _n(st.value.left) in ("1.0", "1")]
+    trace_exact = [st for st in ast.walk(est.node) if isinstance(st, ast.Assign) and any(_n(t) == "trace_inv_exact" for t in st.targets) and "np.sum" in _n(st.value)]
+    lam = [x for x in ast.walk(est.node) if isinstance(x, ast.Lambda) and isinstance(x.body, ast.BinOp) and "1.0/" in _n(x.body)]
+    shifts = [st for st in ast.walk(est.node) if isinstance(st, ast.Assign) and any(_n(t) == "inv_shift" for t in st.targets)]
+    key = f"{est.key}::exact and stochastic parts of trace(inverse) use the same shift"
+    if not trace_exact or not lam or not shifts:
+        ctx.und("R34.4", key, f"{len(trace_exact)} exact sums, {len(lam)} SLQ functions, {len(shifts)} shift bindings", est)
+        return
+    sh = _n(shifts[0].value)
+    # the summand of the exact part
+    summand = None
+    for st in trace_exact:
+        for c in ast.walk(st.value):
+            if isinstance(c, ast.Call) and call_name(c) == "sum" and c.args:
+                a = c.args[0]
+                if isinstance(a, ast.Name):
+                    d = [s2 for s2 in inv_exact if _n(s2.targets[0]) == a.id]
+                    a = d[0].value if d else a
+                summand = _n(a)
+    from ..terms import canon
+    good = summand is not None and canon(summand, add=True) in (canon(f"1.0/(eigenvalues+{sh})", add=True), canon(f"1/(eigenvalues+{sh})", add=True))
+    ctx.check("R34.4", key, good, f"exact summand `{summand}`; stochastic part uses shift `{sh}`" + ("" if good else
+              ": in data space the eigenvalues are those of the shifted operator, the exact part must add the same shift"), est, trace_exact[0])
+
+
+_run_c34b = run
+
+
+def run(ctx):  # noqa: F811
+    _run_c34b(ctx)
+    r34_4(ctx, ctx.model)
